@@ -85,13 +85,17 @@ fn build(kind: &str, rng: &mut Rng) -> (Vec<String>, usize, Vec<usize>, Option<u
 
 pub fn run(o: &Opts) -> Report {
     let mut rep = Report::new("fault");
+    // `--prop C08`: the same sweep, judged only by C08's clause ("still never modifies a lower
+    // overlay layer", whatever fails and wherever), on the overlay configurations
+    let c08 = o.extra.iter().position(|a| a == "--prop").and_then(|i| o.extra.get(i + 1)).map(|s| s.as_str()) == Some("C08");
+    crate::tree_stream::select_universe(&o.extra);
     let mut rng = Rng::new(o.seed ^ 0xfa17);
     let mut world = RWorld::new(&o.scratch);
     let configs = [
         "fault(mem)", "fault(phys)", "alt(fault(mem))", "alt(fault(phys))", "ovl(fault(mem),mem)", "ovl(mem,fault(mem))", "ovl(fault(mem),fault(mem))",
         "ovl(fault(mem),fault(mem),fault(mem))", "ovl(fault(phys),fault(mem))", "ovl(fault(mem),fault(phys))", "alt(ovl(fault(mem),fault(mem)))",
     ];
-    let n_scen = if o.thorough() { 60 } else { 8 };
+    let n_scen = if o.thorough() { 60 } else if c08 { 24 } else { 8 };
     let ts = TreeSpec {
         prop: "C20".into(),
         configs: vec![],
@@ -126,6 +130,9 @@ pub fn run(o: &Opts) -> Report {
     }
     let mut probes: Vec<Probe> = vec![];
     for cfg_kind in configs {
+        if c08 && !cfg_kind.contains("ovl") {
+            continue;
+        }
         let phys = cfg_kind.contains("phys");
         let reps = if phys { (n_scen / 2).max(2) } else { n_scen };
         // curated scenarios (run on every tier): a fixed tree with nested NON-EMPTY directories and
@@ -174,7 +181,19 @@ pub fn run(o: &Opts) -> Report {
             if let Some(f) = &forced {
                 op = f.clone();
             }
-            for _ in 0..(if forced.is_some() { 0 } else { 80 }) {
+            if c08 && forced.is_none() {
+                // C08: the calls whose implementation touches lower layers while writing to the upper one
+                // (copy-up of append, whiteouts of removals, creation over lower entries, transfers)
+                let wanted = ["append", "remove_file", "append", "remove_dir", "write", "move_file", "append", "remove_dir_all", "create_dir", "move_dir", "copy_file", "append"];
+                let w = wanted[si % wanted.len()];
+                for _ in 0..300 {
+                    if op.name == w && (w != "append" || snap.get(&op.path).map(|o| o.ex == "E").unwrap_or(false)) {
+                        break;
+                    }
+                    op = gen_op(&mut rng, &ts, &snap, &cfg);
+                }
+            }
+            for _ in 0..(if forced.is_some() || c08 { 0 } else { 80 }) {
                 let composite = matches!(op.name, "create_dir_all" | "remove_dir_all" | "copy_file" | "move_file" | "copy_dir" | "move_dir" | "walk" | "read_to_string" | "read_dir" | "remove_dir" | "read");
                 let mutator = matches!(op.name, "append" | "write" | "remove_dir" | "remove_file" | "create_dir");
                 if (want_composite && composite) || (!want_composite && (mutator || composite)) {
@@ -267,6 +286,14 @@ pub fn run(o: &Opts) -> Report {
         }
         let ok = !res.starts_with("err");
         let yields_err = p.opname == "walk" && res.contains('!');
+        if c08 {
+            for (j, li) in p.lower_i.iter().enumerate() {
+                if impl_outs[*li] != p.base_lower[j] {
+                    rep.fail(mk("prop", format!("{}:{}:lower-layer-changed-under-fault", class, p.opname), format!("lower layer {} changed: {}", j + 1, first_diff(&impl_outs[*li], &p.base_lower[j])), &impl_outs[*li], &p.base_lower[j]));
+                }
+            }
+            continue;
+        }
         if fired && ok && !yields_err && impl_outs[p.snap_i] != p.full_snap {
             rep.fail(mk(
                 "prop",
